@@ -149,7 +149,7 @@ func (g *generator) walkDefinition(schema *schemaparser.Schema) (ast.Type, error
 
 	//nolint: gocritic
 	if len(schema.Types) > 1 {
-		def, err = g.walkScalarDisjunction(schema.Types)
+		def, err = g.walkScalarDisjunction(schema)
 	} else if schema.Enum != nil {
 		def, err = g.walkEnum(schema)
 	} else {
@@ -174,27 +174,32 @@ func (g *generator) walkDefinition(schema *schemaparser.Schema) (ast.Type, error
 	return def, err
 }
 
-func (g *generator) walkScalarDisjunction(types []string) (ast.Type, error) {
-	branches := make([]ast.Type, 0, len(types))
+func (g *generator) walkScalarDisjunction(schema *schemaparser.Schema) (ast.Type, error) {
+	branches := make([]ast.Type, 0, len(schema.Types))
 
-	for _, typeName := range types {
+	for _, typeName := range schema.Types {
 		switch typeName {
 		case typeNull:
 			branches = append(branches, ast.Null())
-		case typeBoolean:
-			branches = append(branches, ast.Bool())
-		case typeString:
-			branches = append(branches, ast.String())
-		case typeNumber:
-			branches = append(branches, ast.NewScalar(ast.KindFloat64))
-		case typeInteger:
-			branches = append(branches, ast.NewScalar(ast.KindInt64))
+		case typeBoolean, typeString, typeNumber, typeInteger:
+			// the keywords written next to the list of types (minLength, minimum, …)
+			// apply to the branch of the type they are meaningful for
+			branchSchema := *schema
+			branchSchema.Types = []string{typeName}
+			branchSchema.Default = nil
+
+			branch, err := g.walkDefinition(&branchSchema)
+			if err != nil {
+				return ast.Type{}, err
+			}
+
+			branches = append(branches, branch)
 		default:
 			return ast.Type{}, fmt.Errorf("unexpected type in scalar disjunction '%s'", typeName)
 		}
 	}
 
-	return ast.NewDisjunction(branches), nil
+	return ast.NewDisjunction(branches, ast.Default(unwrapJSONNumber(schema.Default))), nil
 }
 
 func (g *generator) walkDisjunctionBranches(branches []*schemaparser.Schema) ([]ast.Type, error) {
